@@ -27,9 +27,9 @@ ASSUMPTIONS = [
     "linkifier = hostile stub (reports javascript:/data: candidates); linkify-it-py's own matching is out of scope",
     "HTML attributes are inspected only for html=False configurations (with html on, raw HTML legitimately passes through)",
 ]
-SAFE_RE = re.compile(r"^(?:[A-Za-z0-9;/?:@&=+$,\-_.!~*'()#]|%[0-9A-Fa-f]{2})*$")
+SAFE_RE = re.compile(r"^(?:[A-Za-z0-9;/?:@&=+$,\-_.!~*'()#]|%[0-9A-Fa-f]{2})*\Z")   # \Z, not $: '$' would accept a trailing line feed
 BAD_RE = re.compile(r"^(javascript|vbscript|file|data):")
-GOOD_DATA = re.compile(r"^data:image/(gif|png|jpeg|webp)(;|,|$)")
+GOOD_DATA = re.compile(r"^data:image/(gif|png|jpeg|webp)(;|,|\Z)")
 ATTR_RE = re.compile(r'<(a|img)((?: [A-Za-z-]+="[^"]*")*)( /)?>')
 HREF_RE = re.compile(r' (href|src)="([^"]*)"')
 
@@ -326,6 +326,17 @@ def run(ctx):
         tmpl = rng.choice(TEMPLATES[prod])
         ctx.sample({"producer": prod, "src": tmpl.replace("{d}", d), "conf": conf}, every=4999)
         template_case(ctx, prod, tmpl, d, conf)
+    # long destinations, systematically: every producer x scheme x length around 1 KiB and 4 KiB x way of ending
+    k = 0
+    for prod in ("inline", "image", "ref_link", "ref_image", "inline_angle", "image_angle", "autolink"):
+        for sch in ("data:text/html;base64,", "javascript:", "DATA:image/svg+xml,", "data:image/png;base64,", "data:image/gif;base64,", "http://a.b/", "/rel/"):
+            for n in (1000, 1023, 1024, 1100, 4000, 4095, 4096, 4200, 9000):
+                for tail in ("", "=", "==", "&#10;", "&NewLine;", "&#xA;", "&Tab;", "%0A", "\\", "&amp;", "é", "\\)"):
+                    k += 1
+                    if not ctx.mine(k) or (prod == "autolink" and ("&" in tail or "\\" in tail)):
+                        continue
+                    ctx.count("long_destinations")
+                    template_case(ctx, prod, TEMPLATES[prod][k % len(TEMPLATES[prod])], sch + "A" * n + tail, BASES[k % len(BASES)])
     for _ in range(ctx.scale(14000, 300000)):
         duplicate_case(ctx, rng.choice(DUP_TEMPLATES), bad_dest(rng) if rng.random() < 0.8 else rng.choice(["/fine", "data:image/png;base64,xx", "http://a.b/c"]), rng.choice(BASES))
     ctx.counters["scheme_spellings_distinct"] += len(spellings)
